@@ -38,7 +38,10 @@ class WallHang(KeyboardInterrupt):
     of the code under test swallows it.)"""
 
 
-HANG_S = float(__import__('os').environ.get('VERIF_HANG_S', '40'))
+HANG_S = float(__import__('os').environ.get('VERIF_HANG_S', '120'))
+# (keychain scenarios run no event loop - a history with a fault at every storage step legitimately takes minutes in the
+# thorough tier: no watchdog there)
+NO_WATCHDOG = ('keychain',)
 _hang = {}
 
 
@@ -60,7 +63,7 @@ def execute(sc, keep_events=False):
     """Run one scenario.  A step cap does not bound a loop that never yields: a real-time watchdog turns it into a violation."""
     import signal
     import threading
-    if HANG_S <= 0 or threading.current_thread() is not threading.main_thread():
+    if HANG_S <= 0 or sc.get('engine') in NO_WATCHDOG or threading.current_thread() is not threading.main_thread():
         return _execute(sc, keep_events)
     _hang.clear()
     old = signal.signal(signal.SIGALRM, _on_alarm)
